@@ -36,6 +36,7 @@ TNext ==
         \/ Ev.e = "CloseOutCall" /\ CloseOutCall
         \/ Ev.e = "CloseOutRet"  /\ CloseOutRet
         \/ Ev.e = "WaitAbortCall" /\ WaitAbortCall
+        \/ Ev.e = "StallCall" /\ StallCall
         \* the client waited (3 s) for its context to be cancelled: only "aborted" can be explained
         \/ Ev.e = "WaitAbortRet"  /\ Ev.r = "aborted" /\ WaitAbortRet
         \/ Ev.e = "Cb"       /\ CbStep /\ cblog'[Len(cblog')] = <<Ev.n, Ev.k, Ev.s, Ev.i>>
